@@ -307,7 +307,7 @@ impl Prop for C16 {
          \"0.0.0.0:0\" 00 filter 00` with a filter string that parses under the wiki grammar (\\key\\value pairs, \\nand\\N / \
          \\nor\\N followed by exactly N pairs) and denotes exactly the reference groups; all 9 regions at depth <= 1. query_singular: one request seeded 0.0.0.0:0, the first page without a trailing terminator. paging: \
          all page sequences of 1..4 (quick) / 1..6 (thorough) pages with lengths from {0,1,2,230} and the terminator at \
-         boundary positions of every page or absent: returned list = entries before the first terminator, in order; request \
+         boundary positions of every page or absent, optionally followed in its datagram by a further 0.0.0.0:0 entry (padding): returned list = entries before the first terminator, in order; request \
          i+1 seeded with the last address of page i; one request per consumed page; nothing after the terminator"
             .into()
     }
@@ -523,6 +523,16 @@ impl Prop for C16 {
                                         break 'place;
                                     }
                                 }
+                            }
+                        }
+                        // what follows the terminator in its datagram is not part of the list, whatever it looks like: zero
+                        // padding (more 0.0.0.0:0 entries) at the end of the page or right behind the terminator
+                        let pad = pick(&mut ch, &[0u8, 1, 2]);
+                        if let (Some((pi, pos)), true) = (term, pad != 0) {
+                            if pad == 1 {
+                                layout[pi].push(TERMINATOR);
+                            } else {
+                                layout[pi].insert(pos + 1, TERMINATOR);
                             }
                         }
                         let server = MasterServer::new(layout.clone());
